@@ -231,6 +231,21 @@ def run(repo: Repo, rep: Report, tier: str) -> None:
         ok = isinstance(t, ast.Tuple) and len(t.elts) == 2 and norm(strip_cast(t.elts[0])) == "context_id" and norm(strip_cast(t.elts[1])) == "d_primitive"
         rep.check(ok, "id-flow", "dimse.DIMSEServiceProvider.receive_primitive", enclosing(c, (ast.stmt,)), "the queue item must be (context id of the decoded message, its primitive)", mod=dm, node=c)
     rep.floor("msg_queue.put sites", len(puts), 1)
+    # ... and nobody else queues a message: an item put back (or forwarded) from elsewhere pairs a primitive with
+    # whatever context id is at hand there, not with the id it arrived on
+    from .c27 import pkg_modules as _pkg
+
+    n_put = 0
+    for short, m in _pkg(repo):
+        for c in ast.walk(m.tree):
+            if not (isinstance(c, ast.Call) and isinstance(c.func, ast.Attribute) and c.func.attr in ("put", "put_nowait") and norm(c.func.value).split(".")[-1] == "msg_queue"):
+                continue
+            n_put += 1
+            q = f"{short}.{qualname(c)}"
+            t = c.args[0] if c.args else None
+            sentinel = isinstance(t, ast.Tuple) and all(isinstance(e_, ast.Constant) and e_.value is None for e_ in t.elts)
+            rep.check(q == "dimse.DIMSEServiceProvider.receive_primitive" or sentinel, "id-flow", q, enclosing(c, (ast.stmt,)), "a DIMSE message is put on the queue outside the reader that decoded it: the context id it is paired with is not the one it arrived on - a request received on a rejected, never proposed or invalid context id that is re-queued under an accepted one is served by the handler instead of aborting the association", mod=m, node=c)
+    rep.floor("msg_queue writers in the package", n_put, 4)
 
     # ---- store sub-operation -----------------------------------------------------------------------
     cs = repo.func("association", "Association._c_store_scp")
